@@ -69,6 +69,23 @@ def run(tier, seed):
             elif i > len(setup) and state != snap.get('ref'):
                 chk.violation({'why': 'a query changed the overrides or the reported sheet sizes', 'after_op': repr(op), 'before': repr(snap.get('ref'))[:300],
                                'after': repr(state)[:300], 'stream': 'purity', 'history': repr(setup + queries)[:1200]})
+        if b % 10 == 0:
+            # a failing cell asked hundreds of times leaves no trace: afterwards every cell answers as a fresh executor does
+            exm = realcode.executor_for(cls)
+            every = [(s, c, r) for s in range(book.ns) for r in range(book.h[s]) for c in range(book.w[s])]
+            first = {t: core.outcome(lambda t=t: exm.get_cell(Cell(*t)).value) for t in every}
+            failing = [t for t, o in first.items() if o.startswith('E')]
+            for t in failing[:2]:
+                for _ in range(450):
+                    core.outcome(lambda t=t: exm.get_cell(Cell(*t)).value)
+            if failing:
+                chk.count('law:after-many-failures')
+                for t in every:
+                    again = core.outcome(lambda t=t: exm.get_cell(Cell(*t)).value)
+                    if again != first[t]:
+                        chk.violation({'why': 'after a failing cell was queried 450 times another query answers differently than before', 'cell': t, 'before': first[t],
+                                       'after': again, 'failing_cell': failing[0], 'stream': 'after-many-failures', 'workbook': repr(book.cells)[:800]})
+                        break
         outs1, ex1 = em.run_real(cls, setup + queries, observer)
         base = answers(queries, outs1[len(setup):])
         perm = list(queries)
